@@ -225,6 +225,10 @@ pub struct Case {
     /// locks or changes anything). `None`: engine default
     #[serde(default)]
     pub max_cond_depth: Option<u64>,
+    /// indexes on the row-id pseudo column `_id`: bit 0 a hash index, bit 1 an
+    /// ordered index (the latter only together with the default `max_btree`)
+    #[serde(default)]
+    pub id_index: u8,
 }
 
 pub struct C09;
@@ -382,6 +386,12 @@ fn mk_engine(case: &Case) -> Result<RelationalEngine, String> {
     if !e.has_index(T, "a") || !e.has_btree_index(T, "b") {
         return Err("indexes not registered".into());
     }
+    if case.id_index & 1 != 0 {
+        e.create_index(T, "_id").map_err(|x| format!("create_index _id: {x}"))?;
+    }
+    if case.id_index & 2 != 0 {
+        e.create_btree_index(T, "_id").map_err(|x| format!("create_btree_index _id: {x}"))?;
+    }
     Ok(e)
 }
 
@@ -447,6 +457,31 @@ fn compare_views(e: &RelationalEngine, exp: &BTreeMap<u64, Vals>, scan_only: boo
             let want = filt(&c);
             if got != want {
                 return Ok(Some(("ordered-index", format!("select {c:?} (ordered index) returns {} expected {}; table is {}", fmt_rows(&got), fmt_rows(&want), fmt_rows(exp)))));
+            }
+        }
+    }
+    // the row-id pseudo column (answered through its hash / ordered index where one exists)
+    let max_id = exp.keys().next_back().copied().unwrap_or(0) + 2;
+    for id in 1..=max_id {
+        let c = Cond::Id(id);
+        let (got, _) = sel(e, &c)?;
+        let want = filt(&c);
+        if got != want {
+            return Ok(Some(("id-lookup", format!("select _id={id} returns {} expected {}; table is {}", fmt_rows(&got), fmt_rows(&want), fmt_rows(exp)))));
+        }
+    }
+    if e.has_btree_index(T, "_id") {
+        for id in 0..=max_id {
+            for (name, cond) in [("<=", Condition::Le("_id".into(), Value::Int(id as i64))), (">", Condition::Gt("_id".into(), Value::Int(id as i64)))] {
+                let rows = e.select(T, cond).map_err(|x| format!("select _id {name} {id}: {x}"))?;
+                let mut got = BTreeMap::new();
+                for r in &rows {
+                    got.insert(r.id, row_vals(r)?);
+                }
+                let want: BTreeMap<u64, Vals> = exp.iter().filter(|(i, _)| if name == "<=" { **i <= id } else { **i > id }).map(|(i, v)| (*i, *v)).collect();
+                if got != want || rows.len() != got.len() {
+                    return Ok(Some(("id-ordered-index", format!("select _id {name} {id} (ordered index) returns {} expected {}; table is {}", fmt_rows(&got), fmt_rows(&want), fmt_rows(exp)))));
+                }
             }
         }
     }
@@ -1534,7 +1569,7 @@ impl C09 {
         let distinct_b = init.iter().map(|v| v[1]).collect::<BTreeSet<_>>().len() as u64;
         let max_btree = if rng.chance(2, 5) { Some(distinct_b + rng.below(3)) } else { None };
         let max_cond_depth = if rng.chance(1, 8) { Some(0) } else { None };
-        Case { mode: Mode::Stmt, lock_to_s, tx_to_s, init, steps, progs: Vec::new(), schedule: Vec::new(), lenient_insert: false, max_btree, max_cond_depth }
+        Case { mode: Mode::Stmt, lock_to_s, tx_to_s, init, steps, progs: Vec::new(), schedule: Vec::new(), lenient_insert: false, max_btree, max_cond_depth, id_index: if max_btree.is_some() { *rng.pick(&[0u8, 0, 1]) } else { *rng.pick(&[0u8, 0, 1, 2, 3]) } }
     }
 
     fn gen_thread_case(&self, rng: &mut Rng) -> Case {
@@ -1565,7 +1600,7 @@ impl C09 {
         // the lock-table acquisitions (rel.lock) are schedule points too: longer schedules
         let slen = rng.range(32, 192) as usize;
         let schedule = sched::gen_schedule(rng, slen, stick);
-        Case { mode: Mode::Threads, lock_to_s: 30, tx_to_s: 60, init, steps: Vec::new(), progs, schedule, lenient_insert: false, max_btree: None, max_cond_depth: None }
+        Case { mode: Mode::Threads, lock_to_s: 30, tx_to_s: 60, init, steps: Vec::new(), progs, schedule, lenient_insert: false, max_btree: None, max_cond_depth: None, id_index: *rng.pick(&[0u8, 0, 1, 2, 3]) }
     }
 }
 
